@@ -473,12 +473,13 @@ fn spawn_part(comp: &str, build: &str, tier: Tier, seed: u64) -> Result<Option<P
     let out = format!("{VD}/target/parts/{comp}.{build}.part");
     let _ = std::fs::create_dir_all(format!("{VD}/target/parts"));
     let _ = std::fs::remove_file(&out);
+    let trace_path = format!("{VD}/target/parts/{comp}.{build}.trace");
     let run_child = |threads: Option<&str>| {
         let mut c = Command::new(&exe);
         c.args(["part", comp, tier.name(), &seed.to_string(), &out])
             .stderr(std::process::Stdio::inherit());
         if let Some(t) = threads {
-            c.env("VERIF_THREADS", t);
+            c.env("VERIF_THREADS", t).env("VERIF_TRACE_FILE", &trace_path);
         }
         c.output().map_err(|e| format!("cannot start {exe}: {e}"))
     };
@@ -489,6 +490,31 @@ fn spawn_part(comp: &str, build: &str, tier: Tier, seed: u64) -> Result<Option<P
         eprintln!("  note: component {comp} build {build} was killed by a signal; re-running it with one worker");
         let _ = std::fs::remove_file(&out);
         o = run_child(Some("1"))?;
+    }
+    if o.status.code().is_none() && comp.starts_with("C14") {
+        // still killed: for the memory-safety components that is the finding. The trace file holds
+        // the index of the run that was executing.
+        let run = std::fs::read_to_string(&trace_path)
+            .ok()
+            .and_then(|t| t.trim().parse::<u64>().ok());
+        if let Some(run) = run {
+            let path = format!("{VD}/replays/{comp}-{build}-{seed}-{run}-crash.replay");
+            let _ = std::fs::create_dir_all(format!("{VD}/replays"));
+            let tag = format!("{comp}/{}", if build == "simdbg" { "dbg" } else { "rel" });
+            let st = Command::new(&exe)
+                .args(["case-file", comp, &run.to_string(), &seed.to_string(), &tag, "C14.crash", build, &path])
+                .status();
+            if matches!(st, Ok(s) if s.success()) {
+                let mut kv = Kv::new();
+                kv.put("evaluations", run + 1);
+                kv.put("found", 1);
+                kv.put("found.0.replay", &path);
+                kv.put("found.0.check", "C14.crash");
+                kv.put("found.0.signature", "the process is killed by a signal (memory corruption) while executing this history");
+                kv.put("found.0.detail", format!("single-worker run died in run {run}; case regenerated from (seed, run)"));
+                return Ok(Some(Part { kv }));
+            }
+        }
     }
     match o.status.code() {
         Some(0) => {}
@@ -660,7 +686,10 @@ fn cmd_check(property: &str, tier: Tier) -> i32 {
                     .arg(&path)
                     .output();
                 match st {
-                    Ok(o) if o.status.code() == Some(1) => {
+                    Ok(o)
+                        if o.status.code() == Some(1)
+                            || (check == "C14.crash" && o.status.code() != Some(0)) =>
+                    {
                         println!("  violation check={check} build={build}: {sig}\n    {detail}");
                         println!("VIOLATION property={property} replay={path}");
                         violations += 1;
@@ -984,9 +1013,10 @@ fn main() {
             let comp = args[2].clone();
             let check: &'static str = match hang_check(&comp) {
                 Some(c) if c == args[6] => c,
+                _ if args[6] == "C14.crash" => "C14.crash",
                 _ => "hang",
             };
-            dispatch!(comp.as_str(), p => case_file(p, run, seed, &args[5], check, &args[7], "the run does not terminate", &args[8]));
+            dispatch!(comp.as_str(), p => case_file(p, run, seed, &args[5], check, &args[7], if check == "C14.crash" { "the process is killed by a signal while executing this history" } else { "the run does not terminate" }, &args[8]));
             0
         }
         Some("miri-noop") => {
